@@ -79,7 +79,8 @@ RulesDeny == RulesApply /\ RulesMode \in {"audit", "enforce"} /\ ~Rbac
 Reached == ~o.trav /\ ~o.prov /\ ~LookupFails /\ ~(Over /\ o.framing = "cl")   \* the request reaches authorization
 P_C11_EnforceBlocks == (IsObs /\ ~Unspecified /\ Reached /\ RulesDeny /\ RulesMode = "enforce") =>
                           (o.status = 403 /\ ~o.relayed /\ o.strayBytes = 0)
-P_C11_AuditForwards == (IsObs /\ ~Unspecified /\ Reached /\ RulesDeny /\ RulesMode = "audit" /\ ~Over) =>
+\* (hostFault # "none": the mock host dropped the connection after reading the request; the client then sees 502/503)
+P_C11_AuditForwards == (IsObs /\ ~Unspecified /\ Reached /\ RulesDeny /\ RulesMode = "audit" /\ ~Over /\ o.hostFault = "none") =>
                           (o.relayed /\ o.bodyIntact /\ o.status = o.hostStatus)
 P_C11_DisabledNotConsulted == (IsObs /\ RulesApply /\ RulesMode = "disabled" /\ Reached /\ ~Over /\ (o.dest = "imds" \/ o.elevated)) =>
                           (o.relayed /\ o.failedDelta = 0)
@@ -90,7 +91,7 @@ P_C11_DenialCountedOnce == (IsObs /\ ~Unspecified /\ Reached /\ RulesDeny) => (o
 P_C15_OverRefused == (IsObs /\ Over) => /\ ~o.relayed /\ o.strayBytes = 0
                                          /\ \/ (o.status >= 400 /\ o.status <= 499)
                                             \/ (LookupFails /\ ~o.trav /\ o.attributed /\ o.status = 500)
-P_C15_WithinRelayed == (IsObs /\ ~Unspecified /\ MustRelay) => (o.relayed /\ o.bodyIntact)
+P_C15_WithinRelayed == (IsObs /\ ~Unspecified /\ MustRelay) => (o.relayed /\ o.bodyIntact)   \* also under a host fault: the host read it
 
 Accepted == IF TLCGet("stats").diameter - 1 = Len(Rec) THEN TRUE
             ELSE PrintT(<<"UNMATCHED", TLCGet("stats").diameter, Len(Rec)>>) /\ FALSE
